@@ -676,6 +676,103 @@ func (r *run) c15Cemi(g *gen.G, m cemi.Message) {
 	r.emit(op, fmt.Sprintf("ok %d %s", size, ktext.Hex(written)))
 }
 
+// c15Oversize: one variable part of an otherwise encodable value is made longer than its protocol
+// field; the frame must still decode, and every OTHER field must come back as it was (the part is
+// truncated, its neighbours are not corrupted)
+func (r *run) c15Oversize(g *gen.G) {
+	g.Oversize = false
+	v := g.Service(g.Pick(10, 12, 1, 3)) // tunnelling request, routing indication, search / description response
+	if !canonical(v.(knxnet.Service)) {
+		return
+	}
+	long := g.Bytes(256 + g.R.Intn(345))
+	blank := func(s knxnet.Service) string {
+		var l *cemi.LData
+		switch s := s.(type) {
+		case *knxnet.TunnelReq:
+			l = ldataOf(s.Payload)
+		case *knxnet.RoutingInd:
+			l = ldataOf(s.Payload)
+		case *knxnet.SearchRes:
+			c := *s
+			c.DescriptionB.DeviceHardware.FriendlyName = ""
+			return ktext.Join(ktext.Service(&c))
+		case *knxnet.DescriptionRes:
+			c := *s
+			c.DeviceHardware.FriendlyName = ""
+			return ktext.Join(ktext.Service(&c))
+		}
+		if l == nil {
+			return ktext.Join(ktext.Service(s))
+		}
+		saveI, saveD := l.Info, l.Data
+		l.Info = nil
+		if a, ok := l.Data.(*cemi.AppData); ok {
+			c := *a
+			c.Data = []byte{0}
+			l.Data = &c
+		}
+		t := ktext.Join(ktext.Service(s))
+		l.Info, l.Data = saveI, saveD
+		return t
+	}
+	want := blank(v.(knxnet.Service))
+	what := ""
+	switch s := v.(type) {
+	case *knxnet.TunnelReq, *knxnet.RoutingInd:
+		var l *cemi.LData
+		if t, ok := s.(*knxnet.TunnelReq); ok {
+			l = ldataOf(t.Payload)
+		} else {
+			l = ldataOf(s.(*knxnet.RoutingInd).Payload)
+		}
+		if l == nil {
+			return
+		}
+		if a, ok := l.Data.(*cemi.AppData); ok && g.R.Intn(2) == 0 {
+			a.Data = long
+			what = fmt.Sprintf("application data of %d bytes", len(long))
+		} else {
+			l.Info = cemi.Info(long)
+			what = fmt.Sprintf("additional info of %d bytes", len(long))
+		}
+	case *knxnet.SearchRes:
+		s.DescriptionB.DeviceHardware.FriendlyName = strings.Repeat("n", 30+g.R.Intn(51))
+		what = "friendly name of 30..80 characters"
+	case *knxnet.DescriptionRes:
+		s.DeviceHardware.FriendlyName = strings.Repeat("n", 30+g.R.Intn(51))
+		what = "friendly name of 30..80 characters"
+	}
+	op := "oversize " + what + " in " + want
+	r.classes["oversize: "+strings.Fields(what)[0]+" "+strings.Fields(what)[1]]++
+	d := guarded(func() decOut {
+		frame := knxnet.AllocAndPack(v)
+		var back knxnet.Service
+		if _, err := knxnet.Unpack(frame, &back); err != nil {
+			return decOut{class: "rejected", msg: err.Error() + " " + ktext.Hex(frame)}
+		}
+		if got := blank(back); got != want {
+			return decOut{class: "neighbours-corrupted", msg: "decodes to " + got}
+		}
+		return decOut{class: "ok"}
+	})
+	if d.class != "ok" {
+		r.violation("oversize-"+d.class, op, d.msg)
+	}
+}
+
+func ldataOf(m cemi.Message) *cemi.LData {
+	switch m := m.(type) {
+	case *cemi.LDataReq:
+		return &m.LData
+	case *cemi.LDataCon:
+		return &m.LData
+	case *cemi.LDataInd:
+		return &m.LData
+	}
+	return nil
+}
+
 func (r *run) c15(g *gen.G, budget int) {
 	for k := 0; k < gen.NumServiceKinds; k++ {
 		for _, ov := range []bool{false, true} {
@@ -690,6 +787,9 @@ func (r *run) c15(g *gen.G, budget int) {
 		r.c15Body(g, g.Service(-1))
 		g.Oversize = g.R.Intn(2) == 0
 		r.c15Cemi(g, g.Cemi(-1))
+		if r.nOps%2 == 0 {
+			r.c15Oversize(g)
+		}
 	}
 	// util.PackString directly
 	_ = util.PackString
